@@ -69,6 +69,11 @@ impl Clone for Asn {
     fn clone(&self) -> (r: Asn) ensures r == *self { unimplemented!() }
 }
 impl Copy for Asn {}
+// derive(Hash) in rpki
+impl std::hash::Hash for Asn {
+    #[verifier::external_body]
+    fn hash<H: std::hash::Hasher>(&self, state: &mut H) { unimplemented!() }
+}
 impl Asn {
     pub uninterp spec fn as_u32(&self) -> u32;
     #[verifier::external_body]
@@ -105,6 +110,34 @@ impl ProviderAsns {
     pub fn empty() -> (r: ProviderAsns) ensures r == ProviderAsns::empty_spec() { unimplemented!() }
     #[verifier::external_body]
     pub fn asn_count(&self) -> (r: u16) ensures r == self.asn_count_spec() { unimplemented!() }
+
+    // the provider ASNs in the order they are stored (a byte string of 4-byte groups in rpki).
+    // ASSUMED: iter() yields exactly this sequence; nothing is assumed about how it relates to ==
+    // beyond what == on the whole value says (equal values have equal sequences, by congruence).
+    pub uninterp spec fn asns_spec(&self) -> Seq<Asn>;
+    pub uninterp spec fn byte_len_spec(&self) -> usize;
+
+    #[verifier::external_body]
+    pub fn iter(&self) -> (r: ProviderIter<'_>)
+        ensures
+            r.obeys_prophetic_iter_laws(), r.decrease() is Some,
+            r.remaining().is_prefix_of(self.asns_spec()),
+            r.will_return_none() ==> r.remaining() == self.asns_spec(),
+    { unimplemented!() }
+
+    #[verifier::external_body]
+    pub fn len(&self) -> (r: usize) ensures r == self.byte_len_spec() { unimplemented!() }
+
+    #[verifier::external_body]
+    pub fn is_empty(&self) -> (r: bool) ensures r == (self.byte_len_spec() == 0) { unimplemented!() }
+}
+// the iterator returned by ProviderAsns::iter (an `impl Iterator<Item = Asn>` in rpki)
+#[verifier::external_body]
+pub struct ProviderIter<'a> { _p: &'a ProviderAsns }
+impl<'a> Iterator for ProviderIter<'a> {
+    type Item = Asn;
+    #[verifier::external_body]
+    fn next(&mut self) -> Option<Asn> { unimplemented!() }
 }
 impl Eq for ProviderAsns {}
 impl Clone for ProviderAsns {
